@@ -189,6 +189,7 @@ func ordinalize(number int) string {
 
 func (c *context) run() {
 	for c.index <= len(c.handlers) {
+		simYield(4)
 		// Break out when the request context has been cancelled.
 		select {
 		case <-c.Request().Context().Done():
@@ -213,6 +214,7 @@ func (c *context) run() {
 			panic(fmt.Sprintf("unable to invoke the %s handler [%s:%T]: %v",
 				ordinalize(c.index), runtime.FuncForPC(reflect.ValueOf(h).Pointer()).Name(), h, err))
 		}
+		simYield(5)
 		c.index++
 
 		// If the handler returned something, write it to the response.
